@@ -530,6 +530,8 @@ func checkC17(c *Ctx, r *Report) {
 	c.checkAPIReturnsErr(r, "R1", publishFn)
 	// R6: an inbound PUBLISH never disturbs the client's own exchange stored under the same message ID
 	c.checkClientQoS2Receive(r, "R6", m)
+	// R7: nothing the acknowledgement has to pass through is blocked by the waiting API call itself (C28-R7)
+	importRules(c, r, "C28", map[string]string{"R7": "R7"})
 	// R2
 	c.checkRetryCallbacks(r, "R2", "client", m.snSenders)
 	// R3: PUBREL always answered
